@@ -82,7 +82,8 @@ impl crate::inflight::SizedRequest for Decoded {
     }
 
     fn is_publish(&self) -> bool {
-        matches!(self, Decoded::Publish(..))
+        // only a PUBLISH whose payload is still being streamed is followed by payload chunks
+        matches!(self, Decoded::Publish(pkt, payload, _) if pkt.payload_size as usize != payload.len())
     }
 
     fn is_chunk(&self) -> bool {
